@@ -232,7 +232,8 @@ def punct_tree(rng):
     pair_heavy = rng.random() < 0.5
     punct = (gen.PAIRPUNCT * 3 + gen.COMMA) if pair_heavy else gen.PUNCT
     pools = gen.Pools(p_punct=dens, punct=punct,
-                      pos=gen.POS + ['PRELS', 'PRELS', 'PRELSAT', 'PRELSAT'])
+                      pos=gen.POS + ['PRELS', 'PRELS', 'PRELSAT', 'PRELSAT',
+                                     'PR', 'ELS', 'AT', 'prels'])
     n = rng.choice([2, 3, 4, 5, 6, 8, 12]) if rng.random() < 0.7 \
         else rng.randint(1, 30)
     n = gen.maybe_long(rng, n, 0.003)
@@ -240,6 +241,10 @@ def punct_tree(rng):
                     p_unary=rng.choice([0, 0.15, 0.35]),
                     moves=rng.choice([0, 0, 0, 1, 2]),
                     root_pieces=rng.choice([1, 1, 2, 3]))
+    gen.spice(rng, spec, ['cat-keyword', 'word-typographic-punct',
+                          'word-keyword', 'word-unicode', 'pos-punct-char',
+                          'pos-apostrophe'],
+              root_labels=['TOP', 'ROOT', 'S'])
     if rng.random() < 0.5:
         # NeGra style: punctuation hangs under the root
         root = spec['root']
@@ -288,7 +293,9 @@ def shard(ctx):
                             'punctuation_symetrify', 'punctuation_symetrify'])
         params = {}
         if trans == 'punctuation_symetrify' and rng.random() < 0.4:
-            params['relc'] = 'PRELS'
+            # the designated tag is compared as a whole: PRELS is a part of
+            # PRELSAT, PR / ELS / AT are parts of both
+            params['relc'] = rng.choice(['PRELS', 'PRELS', 'PRELSAT'])
         case = {'kind': 'p', 'spec': spec, 'trans': trans, 'params': params,
                 'root_attach': rng.random() < 0.4,
                 'then': rng.choice([None, None, 'punctuation_verylow',
